@@ -627,9 +627,10 @@ class ExprMixin:
                 return obj[idx]
             raise Unsupported("symbolic index into tuple")
         if isinstance(obj, dict):
-            if isinstance(idx, (str, int)):
-                if idx in obj:
-                    return obj[idx]
+            k = self.dict_key(idx)
+            if k is not None:
+                if k in obj:
+                    return obj[k]
                 self.raise_builtin("KeyError", node)
         if isinstance(obj, DequeV):
             if isinstance(idx, int) and idx == 0:
@@ -640,11 +641,34 @@ class ExprMixin:
         if isinstance(obj, EnumMap):
             return self.enummap_get(obj, idx, subscript=True, node=node)
         if isinstance(obj, ClassV) and obj.info.is_enum:
-            # ErrorClass[name]
-            raise Unsupported("Enum[name]")
+            # ErrorClass[name]: member by name, KeyError otherwise
+            ci = obj.info
+            names = [n for n, _ in ci.enum_members]
+            if isinstance(idx, str):
+                if idx in names:
+                    return self.enum_member(ci, idx)
+                self.raise_builtin("KeyError", node)
+            st = ops.sterm(idx)
+            hit = z3.Or([st == z3.StringVal(n) for n in names])
+            if not self.path.branch(hit):
+                self.raise_builtin("KeyError", node)
+            out = self.enum_const(ci, names[-1])
+            for n in reversed(names[:-1]):
+                out = z3.If(st == z3.StringVal(n), self.enum_const(ci, n), out)
+            return EnumVal(ci, z3.simplify(out))
         if isinstance(obj, (ExtV, ClassV)):
             return obj  # generic alias e.g. RetryOutcome[T]
         raise Unsupported(f"getitem({obj!r})")
+
+    def dict_key(self, k):
+        """hashable python key for a concrete dict key (str/int or a concrete enum member)"""
+        if isinstance(k, (str, int)):
+            return k
+        if isinstance(k, EnumVal):
+            n = self.enum_concrete_name(k)
+            if n is not None:
+                return ("E", k.cls.name, n)
+        return None
 
     def enummap_get(self, m: EnumMap, key, subscript=False, default=None, node=None):
         key = self.force(key)
@@ -872,6 +896,28 @@ class ExprMixin:
 
     def e_GeneratorExp(self, node, env):
         return GenExp(node, env)
+
+    def e_DictComp(self, node, env):
+        if len(node.generators) != 1:
+            raise Unsupported("nested dict comprehension")
+        g = node.generators[0]
+        pairs = []
+        for item in self.iterate(self.eval(g.iter, env)):
+            sub = Env(env.func, env.module, parent=env)
+            self.assign_target(g.target, item, sub)
+            if all(self.is_true(self.eval(c, sub)) for c in g.ifs):
+                pairs.append((self.eval(node.key, sub), self.eval(node.value, sub)))
+        if pairs and all(isinstance(k, EnumVal) for k, _ in pairs) and len({k.cls.key for k, _ in pairs}) == 1:
+            names = [self.enum_concrete_name(k) for k, _ in pairs]
+            if all(n is not None for n in names):
+                return EnumMap(pairs[0][0].cls, dict(zip(names, (v for _, v in pairs))))
+        out = {}
+        for k, v in pairs:
+            kk = self.dict_key(k)
+            if kk is None:
+                raise Unsupported("dict comprehension key")
+            out[kk] = v
+        return out
 
     def e_ListComp(self, node, env):
         return list(self.run_comprehension(node, env))
